@@ -147,10 +147,17 @@ func VerifC08H265() {
 	verifCover("C08.h265.end")
 }
 
-// two NAL units separated by a start code (aggregation path)
+// two or three NAL units separated by start codes (aggregation path, with a
+// flush in the middle when the MTU is small)
 func VerifC08H265Aggregation() {
 	mtu := verifU16("mtu")
-	in1 := []byte{0, 0, 1, verifU8("a0") & 0x7F, verifU8("a1"), verifU8("a2"), 0, 0, 1, verifU8("b0") & 0x7F, verifU8("b1"), verifU8("b2")}
+	sizes := [][]int{{3, 3}, {2, 6, 2}, {3, 4, 3}, {10, 3, 3}}[verifCase("units", 0, verifBound("C08.aggshapes")-1)]
+	var in1 []byte
+	for _, n := range sizes {
+		u := verifBytes("unit", n)
+		in1 = append(in1, 0, 0, 1, u[0]&0x7F)
+		in1 = append(in1, u[1:]...)
+	}
 	in2 := []byte{0, 0, 1, verifU8("c0") & 0x7F, verifU8("c1"), verifU8("c2")}
 	donl := verifCase("donl", 0, 1) == 1
 	a, b := &H265Payloader{AddDONL: donl}, &H265Payloader{AddDONL: donl}
